@@ -119,7 +119,8 @@ def scripts_for(dom, rng):
     if dom == "conc":
         out = []
         for i in range(8):
-            progs = [[["create"], ["delown"], ["create"], ["lazy", 10 * t + 1], ["delete", 1], ["join"], ["create"]] for t in range(3)]
+            progs = [[["create"], ["delown"], ["create"], ["lazy", 10 * t + 1], ["delete", 1], ["join"], ["create"],
+                      ["lazyins", 2, t * 100000 + 501], ["lazycreate", t * 100000 + 600]] for t in range(3)]
             out.append({"tid": 99300000 + i, "mode": "free", "alive_ids": [0, 1], "free_seq": [2, 3], "progs": progs, "schedule": [], "post": i % 2})
         return out, "Conc_Trace"
     if dom == "dispatch":
